@@ -84,6 +84,7 @@ func (c *FnVC) localEnvAt(b *ssa.BasicBlock) map[string]envVal {
 				continue
 			}
 			env[nm] = envVal{c.load(pt.Elem(), c.v(best.X)), pt.Elem()}
+			env["&"+nm] = envVal{c.v(best.X), best.X.Type()}
 			continue
 		}
 		env[nm] = envVal{c.v(best.X), best.X.Type()}
